@@ -1,4 +1,5 @@
 import RactorModel.Lemmas.FactoryKeyOrder
+import RactorModel.Lemmas.FactoryNoStart
 
 /-!
 # Jobs of one key START in submission order (key-persistent routing, no stale completion)
@@ -15,7 +16,7 @@ namespace Factory
 /-- the jobs in the mailbox of actor `aid` -/
 def mbox (e : Env) (aid : Nat) : List Job :=
   match e.getActor aid with
-  | some a => a.mailbox
+  | some a => if a.alive then a.mailbox else []
   | none => []
 
 /-- the worker pipeline of a slot: what its actor has in the mailbox, then the worker's own queue -/
@@ -50,7 +51,7 @@ theorem wq_dispatchJob (p : WP) (e : Env) (j : Job) :
       refine ⟨trivial, ?_, ?_⟩
       · simp only [wq, mbox, gs, g]
         subst ha'
-        simp only [List.append_assoc, List.singleton_append]
+        simp only [hal, if_true, List.append_assoc, List.singleton_append]
       · intro b hb
         unfold mbox
         rw [getActor_setActor_other e a' b (by rw [haid']; exact hb)]
@@ -212,7 +213,7 @@ theorem mbox_spawn_old (e : Env) (wid aid b : Nat) (h : b ≠ aid ∨ (e.getActo
     · rw [g] at h; cases h
 
 theorem mbox_spawn_new (e : Env) (wid aid : Nat) (h : e.getActor aid = none) : mbox (e.spawn wid aid) aid = [] := by
-  unfold mbox; rw [getActor_spawn_new e wid aid h]
+  unfold mbox; rw [getActor_spawn_new e wid aid h]; rfl
 
 /-! ## the order invariant with mailboxes and started jobs -/
 
@@ -969,5 +970,276 @@ theorem ordW_handleSupervisorEvt (w0 : W) (who : Nat) (rest : List Nat) (hc : Co
             · exact hc.actor_inj ha hb hab
         apply ordW_afterReplace _ _ hlm
         exact h.sub (List.Sublist.refl _) hps
+
+
+/-! ## started jobs -/
+
+/-- ids of the jobs of key `k` that have started, in start order -/
+def startedIds (log : List Ev) (k : Nat) : List Nat := ((startsOf log).filter (fun x => x.2 == k)).map (·.1)
+
+theorem startedIds_of_starts {l l' : List Ev} (h : startsOf l' = startsOf l) (k : Nat) : startedIds l' k = startedIds l k := by
+  unfold startedIds; rw [h]
+
+theorem startedIds_start (log : List Ev) (aid id key k : Nat) :
+    startedIds (log ++ [Ev.start aid id key]) k = startedIds log k ++ (if key = k then [id] else []) := by
+  unfold startedIds
+  rw [startsOf_append]
+  simp only [startsOf, List.filterMap_cons, List.filterMap_nil, List.filter_append, List.map_append]
+  by_cases hk : key = k
+  · simp [hk]
+  · have : (key == k) = false := by simpa using hk
+    simp [hk, this]
+
+/-- the invariant of a run (while the factory has not entered `post_stop`) -/
+structure SO (w : W) : Prop where
+  ord : OrdW (inboxJobs w.inbox) (startedIds w.env.log) w
+  i : (inboxJobs w.inbox).Pairwise KO
+  si : ∀ x ∈ inboxJobs w.inbox, ∀ s ∈ startedIds w.env.log x.key, s < x.id
+  inc : ∀ k, (startedIds w.env.log k).Pairwise (· < ·)
+
+theorem unique_pending_slot {pool : List WP} {k : Nat} (h : pendCount k pool ≤ 1) {p1 p2 : WP}
+    (h1 : p1 ∈ pool) (h2 : p2 ∈ pool) (hk1 : p1.hasPendingKey k = true) (hk2 : p2.hasPendingKey k = true) : p1 = p2 := by
+  induction pool with
+  | nil => cases h1
+  | cons x xs ih =>
+    simp only [pendCount, List.countP_cons] at h ih
+    cases h1 with
+    | head =>
+      cases h2 with
+      | head => rfl
+      | tail _ h2' =>
+        have : 0 < xs.countP (·.hasPendingKey k) := List.countP_pos_iff.mpr ⟨p2, h2', hk2⟩
+        simp only [hk1, if_true] at h; omega
+    | tail _ h1' =>
+      cases h2 with
+      | head =>
+        have : 0 < xs.countP (·.hasPendingKey k) := List.countP_pos_iff.mpr ⟨p1, h1', hk1⟩
+        simp only [hk2, if_true] at h; omega
+      | tail _ h2' =>
+        exact ih (by split at h <;> omega) h1' h2'
+
+/-- key-persistent: a key that is booked in flight or queued on two slots — they are one slot -/
+theorem kp_one_slot_per_key {w : W} (ha : AffInv w) (hs : PoolAll SlotOk w) {p1 p2 : WP} {k : Nat}
+    (h1 : p1 ∈ w.pool) (h2 : p2 ∈ w.pool) (hk1 : k ∈ keysCurr p1 ++ keysMq p1) (hk2 : k ∈ keysCurr p2 ++ keysMq p2) :
+    p1 = p2 := by
+  have t1 := (hs p1 h1).tracks k
+  have t2 := (hs p2 h2).tracks k
+  have c1 : 0 < (keysCurr p1 ++ keysMq p1).count k := List.count_pos_iff.mpr hk1
+  have c2 : 0 < (keysCurr p2 ++ keysMq p2).count k := List.count_pos_iff.mpr hk2
+  rw [List.count_append] at c1 c2
+  apply unique_pending_slot (ha.aff k) h1 h2
+  · rw [hasPending_iff]; exact List.count_pos_iff.mp (by omega)
+  · rw [hasPending_iff]; exact List.count_pos_iff.mp (by omega)
+
+/-- a job in a slot's pipeline has its key booked on that slot (in flight or queued) -/
+theorem wq_key_booked {w : W} (hc : Core fk w) {p : WP} (hp : p ∈ w.pool) {x : Job} (hx : x ∈ wq p w.env) :
+    x.key ∈ keysCurr p ++ keysMq p := by
+  unfold wq at hx
+  rcases List.mem_append.mp hx with hx | hx
+  · -- in the mailbox of the slot's actor
+    obtain ⟨a, g, _, _, _⟩ := hc.sa p hp
+    unfold mbox at hx
+    rw [g] at hx
+    simp only at hx
+    have hal : a.alive = true := by
+      cases hal : a.alive with
+      | true => rfl
+      | false => rw [hal] at hx; simp at hx
+    rw [hal] at hx
+    simp only [if_true] at hx
+    have hheld : x ∈ a.heldJobs := by
+      unfold Actor.heldJobs; exact List.mem_append_right _ hx
+    obtain ⟨_, q, hq, hqa, _, hkc, _⟩ := hc.held_booked g hal hheld
+    have : q = p := hc.actor_inj hq hp hqa
+    subst this
+    exact List.mem_append_left _ (by unfold keysCurr; rw [hkc]; exact List.mem_singleton_self _)
+  · exact List.mem_append_right _ (List.mem_map.mpr ⟨x, hx, rfl⟩)
+
+
+/-! ## a worker task runs: the start event -/
+
+theorem SO.same {w w' : W} (h : SO w) (hq : w'.queue = w.queue) (hp : w'.pool = w.pool)
+    (he : ∀ aid, mbox w'.env aid = mbox w.env aid) (hl : startsOf w'.env.log = startsOf w.env.log)
+    (hi : w'.inbox = w.inbox) : SO w' := by
+  have hS : startedIds w'.env.log = startedIds w.env.log := by funext k; exact startedIds_of_starts hl k
+  refine ⟨?_, by rw [hi]; exact h.i, ?_, ?_⟩
+  · rw [hi, hS]; exact h.ord.of_eq hq hp he
+  · rw [hi, hS]; exact h.si
+  · rw [hS]; exact h.inc
+
+theorem mbox_die_other (e : Env) (aid b : Nat) (hb : b ≠ aid) : mbox (e.die aid) b = mbox e b := by
+  by_cases hnoop : ∀ a, e.getActor aid = some a → a.alive = false
+  · rw [die_noop e aid hnoop]
+  · have : ∃ a, e.getActor aid = some a ∧ a.alive = true := by
+      apply Classical.byContradiction
+      intro hc
+      apply hnoop
+      intro a ha
+      cases hx : a.alive with
+      | false => rfl
+      | true => exact absurd ⟨a, ha, hx⟩ hc
+    obtain ⟨a, g, hal⟩ := this
+    obtain ⟨_, hoth, _⟩ := die_spec e aid a g hal
+    unfold mbox; rw [hoth b hb]
+
+theorem so_settleOne (w : W) (aid : Nat) (hc : Core fk w) (ha : AffInv w) (h : SO w) :
+    SO ({ w with env := w.env.settleOne aid } : W) := by
+  unfold Env.settleOne
+  cases g : w.env.getActor aid with
+  | none => exact h
+  | some a =>
+    simp only
+    have haid := getActor_aid g
+    split
+    · exact h
+    · rename_i hcond
+      have hal : a.alive = true := by
+        cases hx : a.alive with
+        | true => rfl
+        | false => simp [hx] at hcond
+      have hrun : a.running = none := by
+        cases hx : a.running with
+        | none => rfl
+        | some j => simp [hx] at hcond
+      split
+      · -- a retired worker exits: it is no slot's worker, nothing changes for the slots
+        rename_i hstop
+        have hns : ∀ q ∈ w.pool, q.actor ≠ aid := by
+          intro q hq hqa
+          obtain ⟨x, gx, _, hxa, _⟩ := hc.sa q hq
+          rw [hqa, g] at gx; cases gx
+          have := (hxa hal).1
+          rw [hstop] at this; cases this
+        refine ⟨?_, h.i, ?_, ?_⟩
+        · have hS : startedIds (w.env.die aid).log = startedIds w.env.log := by
+            funext k; exact startedIds_of_starts (sameE_die w.env aid) k
+          show OrdW _ (startedIds (w.env.die aid).log) _
+          rw [hS]
+          refine h.ord.sub (List.Sublist.refl _) ?_
+          intro q hq
+          refine ⟨q, hq, ?_⟩
+          unfold wq
+          simp only
+          rw [mbox_die_other _ _ _ (hns q hq)]
+          exact List.Sublist.refl _
+        · intro x hx s hs
+          have hS := startedIds_of_starts (sameE_die w.env aid) x.key
+          simp only at hs
+          rw [hS] at hs
+          exact h.si x hx s hs
+        · intro k
+          have hS := startedIds_of_starts (sameE_die w.env aid) k
+          simp only
+          rw [hS]; exact h.inc k
+      · cases hm : a.mailbox with
+        | nil => simp only [hm]; exact h
+        | cons j rest =>
+          simp only [hm]
+          -- the actor holds `j`: it is the worker of a slot that books exactly this job
+          have hheld : a.heldJobs = j :: rest := by simp only [Actor.heldJobs, hrun, hm, List.nil_append]
+          obtain ⟨h1, p, hp, hpa, _, hkc, _⟩ := hc.held_booked g hal (j := j) (by rw [hheld]; exact List.mem_cons_self ..)
+          have hrest : rest = [] := by
+            rw [hheld] at h1
+            simpa using h1
+          subst hrest
+          generalize ha' : ({ a with running := some j, mailbox := [] } : Actor) = a'
+          have haid' : a'.aid = aid := by subst ha'; exact haid
+          have g' : w.env.getActor a'.aid = some a := by rw [haid']; exact g
+          have gs := getActor_setActor_self w.env a a' g'
+          rw [haid'] at gs
+          generalize he' : (w.env.setActor a').emit (Ev.start aid j.id j.key) = e'
+          have hmb_self : mbox e' aid = [] := by
+            subst he'
+            unfold mbox
+            show (match (w.env.setActor a').getActor aid with | some a => if a.alive then a.mailbox else [] | none => []) = []
+            rw [gs]; subst ha'; simp [hal]
+          have hmb_other : ∀ b, b ≠ aid → mbox e' b = mbox w.env b := by
+            intro b hb
+            subst he'
+            unfold mbox
+            show (match (w.env.setActor a').getActor b with | some a => if a.alive then a.mailbox else [] | none => []) = _
+            rw [getActor_setActor_other w.env a' b (by rw [haid']; exact hb)]
+          have hwq_p : wq p w.env = j :: p.mq := by
+            unfold wq mbox; rw [hpa, g]; simp [hal, hm]
+          have hwq_p' : wq p e' = p.mq := by unfold wq; rw [hpa, hmb_self]; rfl
+          have hwq_o : ∀ q ∈ w.pool, q ≠ p → wq q e' = wq q w.env := by
+            intro q hq hne
+            have : q.actor ≠ aid := fun hqa => hne (hc.actor_inj hq hp (hqa.trans hpa.symm))
+            unfold wq; rw [hmb_other _ this]
+          have hlog : e'.log = w.env.log ++ [Ev.start aid j.id j.key] := by subst he'; rfl
+          have hS : ∀ k, startedIds e'.log k = startedIds w.env.log k ++ (if j.key = k then [j.id] else []) := by
+            intro k; rw [hlog]; exact startedIds_start _ _ _ _ _
+          have hjp : j ∈ wq p w.env := by rw [hwq_p]; exact List.mem_cons_self ..
+          have hpw := h.ord.m p hp
+          rw [hwq_p] at hpw
+          have hpw2 := List.pairwise_cons.mp hpw
+          -- membership in the new started list
+          have hmemS : ∀ k s, s ∈ startedIds e'.log k → s ∈ startedIds w.env.log k ∨ (j.key = k ∧ s = j.id) := by
+            intro k s hs
+            rw [hS] at hs
+            rcases List.mem_append.mp hs with hs | hs
+            · exact Or.inl hs
+            · split at hs
+              · rename_i hk; simp only [List.mem_singleton] at hs; exact Or.inr ⟨hk, hs⟩
+              · cases hs
+          -- a job of `j`'s key in another slot's pipeline: impossible (affinity)
+          have hother : ∀ q ∈ w.pool, q ≠ p → ∀ x ∈ wq q w.env, x.key ≠ j.key := by
+            intro q hq hne x hx hk
+            have b1 := wq_key_booked hc hq hx
+            have b2 := wq_key_booked hc hp hjp
+            rw [hk] at b1
+            exact hne (kp_one_slot_per_key ha hc.slot hq hp b1 b2)
+          refine ⟨⟨h.ord.q, ?_, h.ord.qi, ?_, ?_, ?_, ?_⟩, h.i, ?_, ?_⟩
+          · intro q hq
+            simp only
+            by_cases hqp : q = p
+            · subst hqp; rw [hwq_p']; exact hpw2.2
+            · rw [hwq_o q hq hqp]; exact h.ord.m q hq
+          · intro q hq x hx y hy
+            simp only at hx hy
+            by_cases hqp : q = p
+            · subst hqp; rw [hwq_p'] at hx
+              exact h.ord.mq q hq x (by rw [hwq_p]; exact List.mem_cons_of_mem _ hx) y hy
+            · rw [hwq_o q hq hqp] at hx; exact h.ord.mq q hq x hx y hy
+          · intro q hq x hx y hy
+            simp only at hx
+            by_cases hqp : q = p
+            · subst hqp; rw [hwq_p'] at hx
+              exact h.ord.mi q hq x (by rw [hwq_p]; exact List.mem_cons_of_mem _ hx) y hy
+            · rw [hwq_o q hq hqp] at hx; exact h.ord.mi q hq x hx y hy
+          · intro x hx s hs
+            simp only at hx hs
+            rcases hmemS _ _ hs with hs | ⟨hk, hs⟩
+            · exact h.ord.sq x hx s hs
+            · rw [hs]; exact h.ord.mq p hp j hjp x hx hk
+          · intro q hq x hx s hs
+            simp only at hx hs
+            rcases hmemS _ _ hs with hs | ⟨hk, hs⟩
+            · by_cases hqp : q = p
+              · subst hqp; rw [hwq_p'] at hx
+                exact h.ord.sm q hq x (by rw [hwq_p]; exact List.mem_cons_of_mem _ hx) s hs
+              · rw [hwq_o q hq hqp] at hx; exact h.ord.sm q hq x hx s hs
+            · rw [hs]
+              by_cases hqp : q = p
+              · subst hqp; rw [hwq_p'] at hx
+                exact hpw2.1 x hx hk
+              · rw [hwq_o q hq hqp] at hx
+                exact absurd hk.symm (hother q hq hqp x hx)
+          · intro x hx s hs
+            simp only at hs
+            rcases hmemS _ _ hs with hs | ⟨hk, hs⟩
+            · exact h.si x hx s hs
+            · rw [hs]; exact h.ord.mi p hp j hjp x hx hk
+          · intro k
+            simp only
+            rw [hS]
+            split
+            · rename_i hk
+              refine List.pairwise_append.mpr ⟨h.inc k, List.pairwise_singleton _ _, ?_⟩
+              intro s hs b hb
+              simp only [List.mem_singleton] at hb; subst hb
+              rw [← hk] at hs
+              exact h.ord.sm p hp j hjp s hs
+            · simp only [List.append_nil]; exact h.inc k
 
 end Factory
